@@ -65,13 +65,15 @@ static matrix *mk(int r, int c, int fam, double off) { matrix *m; NewMatrix(&m, 
 static matrix *mk_y(matrix *x, int fam) { matrix *y; NewMatrix(&y, x->row, 1); for (size_t i = 0; i < x->row; i++) { double s = 0.3 * vg_val(fam + 7, (int)i, 0); for (size_t j = 0; j < x->col; j++) s += (1.0 + j) * x->data[i][j]; y->data[i][0] = s; } return y; }
 static matrix *mk_labels(int n, int n0) { matrix *y; NewMatrix(&y, (size_t)n, 1); for (int i = 0; i < n; i++) y->data[i][0] = (i % 2 == 0 && n0-- > 0) ? 0 : 1; return y; }
 
-typedef struct { uint64_t h; int rows, cols; double *v; } result;
+typedef struct { uint64_t h; int rows, cols; double *v; int post; } result;   /* post: the caller's next draw after the call (bootstrap driver) */
 static result take(matrix *p) { result r; r.rows = (int)p->row; r.cols = (int)p->col; r.v = malloc(sizeof(double) * (size_t)(r.rows * r.cols + 1)); for (int i = 0; i < r.rows; i++) for (int j = 0; j < r.cols; j++) r.v[i * r.cols + j] = p->data[i][j]; r.h = hm_hash(p, 6); return r; }
 static int same_bits(const result *a, const result *b) { return a->rows == b->rows && a->cols == b->cols && memcmp(a->v, b->v, sizeof(double) * (size_t)(a->rows * a->cols)) == 0; }
 static double reldiff(const result *a, const result *b) { if (a->rows != b->rows || a->cols != b->cols) return INFINITY; double d = 0, s = 1e-300; for (int i = 0; i < a->rows * a->cols; i++) { double x = fabs(a->v[i] - b->v[i]); if (x != x) { if (!(a->v[i] != a->v[i] && b->v[i] != b->v[i])) return INFINITY; x = 0; } if (x > d) d = x; if (fabs(b->v[i]) > s) s = fabs(b->v[i]); } return d / s; }
 
 /* ---------------------------------------------------------------- drivers */
 static const char *LNAME[3] = {"PLS", "MLR", "LDA"};
+#define CALLER_SEED 4242u
+static int caller_next_draw(void) { static int have, v; if (!have) { __real_srand_(CALLER_SEED); v = __real_randInt(0, 1000000000); have = 1; } return v; }
 static result run_bootstrap(int learner, int nthreads, int iterations, int groups, int nobj, int fam) {
   CLOCK_TICKS = 0;
   matrix *x, *y, *pred; MODELINPUT in = initModelInput();
@@ -79,8 +81,10 @@ static result run_bootstrap(int learner, int nthreads, int iterations, int group
   else { x = mk(nobj, learner == 0 ? 2 : 1, fam, 0.5); y = mk_y(x, fam); }
   in.mx = x; in.my = y; in.nlv = learner == 0 ? 1 : 0; in.xautoscaling = learner == 0 ? 1 : 0; in.yautoscaling = 0;
   initMatrix(&pred);
+  __real_srand_(CALLER_SEED);     /* the caller's own seeded stream: "never perturbed by another worker" -- nor by the validation it calls */
   BootstrapRandomGroupsCV(&in, (size_t)groups, (size_t)iterations, learner == 0 ? _PLS_ : learner == 1 ? _MLR_ : _LDA_, pred, NULL, (size_t)nthreads, NULL, 0);
-  result r = take(pred);
+  int post = __real_randInt(0, 1000000000);
+  result r = take(pred); r.post = post;
   DelMatrix(&pred); DelMatrix(&x); DelMatrix(&y);
   return r;
 }
@@ -118,20 +122,31 @@ static result *reference(int learner, int nthreads, int iterations, int groups, 
 
 /* driver D: y-scrambling; its inner bootstrap validation hard-codes 4 workers x 100 iterations, the outer loop draws
  * the permutation from the caller's stream between the inner validations */
-static result run_yscrambling(int learner, int loo, int fam) {
+static result run_yscrambling(int learner, int loo, int fam, int nthreads) {
   CLOCK_TICKS = 0;
   matrix *x = mk(7, learner == 0 ? 2 : 1, fam, 0.5), *y = mk_y(x, fam), *cc; MODELINPUT in = initModelInput();
   in.mx = x; in.my = y; in.nlv = learner == 0 ? 1 : 0; in.xautoscaling = learner == 0 ? 1 : 0; in.yautoscaling = 0;
   ValidationArg va = initValidationArg(); va.vtype = loo ? LOO : BootstrapRGCV; va.rgcv_group = 3; va.rgcv_iterations = 4;
   initMatrix(&cc);
-  YScrambling(&in, learner == 0 ? _PLS_ : _MLR_, va, 1, cc, 2, NULL);
+  YScrambling(&in, learner == 0 ? _PLS_ : _MLR_, va, 1, cc, (size_t)nthreads, NULL);
   result r = take(cc); DelMatrix(&cc); DelMatrix(&x); DelMatrix(&y); return r;
 }
 
 #ifndef C06_FREE
 static void body(void) {
-  int driver = vx_choose("driver", 7);
+  int driver = vx_choose("driver", 8);
   { const char *only = getenv("C06_ONLY_DRIVER"); if (only && *only) vx_require(driver == atoi(only)); }   /* calibration aid, never set by run_check */
+  if (driver == 7) {            /* H: y-scrambling table for every requested thread count (default schedule) = the table with 2 threads */
+    int learner = vx_choose("learner", 2), loo = vx_choose("validation", 2), cfg = vx_choose("nthreads", 4), fam = vx_choose("data", 2);
+    static const int NTH[4] = {1, 3, 4, 5};
+    static result ref2[2][2][2]; static char have2[2][2][2];
+    vs_prune_cb = 0;
+    if (!have2[learner][loo][fam]) { vs_begin(1, 0); ref2[learner][loo][fam] = run_yscrambling(learner, loo, fam, 2); vs_end(); have2[learner][loo][fam] = 1; }
+    vs_begin(1, 0); result r = run_yscrambling(learner, loo, fam, NTH[cfg]); vs_end(); vx_transition(2);
+    char key[96]; snprintf(key, sizeof key, "threadcount|YScrambling|%s,%s", LNAME[learner], loo ? "LOO" : "bootstrap");
+    vx_check(same_bits(&r, &ref2[learner][loo][fam]), key, "y-scrambling table with nthreads=%d differs from the one with nthreads=2 (max rel diff %g)", NTH[cfg], reldiff(&r, &ref2[learner][loo][fam]));
+    vx_outcome(r.h); free(r.v); return;
+  }
   if (driver == 6) {            /* G: leave-one-out and k-fold pools for every thread count (default schedule): N threads = sequential run */
     int learner = vx_choose("learner", 3), kfold = vx_choose("scheme", 2), cfg = vx_choose("nthreads", 6), fam = vx_choose("data", 2);
     static const int NTG[6] = {1, 2, 3, 4, 5, 7};
@@ -173,9 +188,9 @@ static void body(void) {
     if (!vx_thorough()) vx_require(fam == 0 && learner == 1);   /* quick: MLR, one data set, both validation kinds */
     memset(STREAM, 0, sizeof STREAM); memset(DRAWS, 0, sizeof DRAWS); LAST_SEED = 0; SINCE_SEED = 0; vs_prune_cb = 0;
     static result refd[2][2][2]; static char haved[2][2][2];
-    if (!haved[learner][loo][fam]) { vs_begin(1, 0); refd[learner][loo][fam] = run_yscrambling(learner, loo, fam); vs_end(); haved[learner][loo][fam] = 1; }
+    if (!haved[learner][loo][fam]) { vs_begin(1, 0); refd[learner][loo][fam] = run_yscrambling(learner, loo, fam, 2); vs_end(); haved[learner][loo][fam] = 1; }
     vs_preemption_bound = 1;
-    vs_begin(0, vx_thorough() ? 20 : 12); result r = run_yscrambling(learner, loo, fam); vs_end(); vx_transition(1);
+    vs_begin(0, vx_thorough() ? 20 : 12); result r = run_yscrambling(learner, loo, fam, 2); vs_end(); vx_transition(1);
     char key[96]; snprintf(key, sizeof key, "schedule|YScrambling|%s,%s", LNAME[learner], loo ? "LOO" : "bootstrap");
     vx_check(same_bits(&r, &refd[learner][loo][fam]), key, "y-scrambling table under this schedule differs from the default schedule (max rel diff %g)", reldiff(&r, &refd[learner][loo][fam]));
     vx_outcome(r.h); free(r.v); return;
@@ -220,6 +235,8 @@ static void body(void) {
     vs_begin(1, 0); result again = run_bootstrap(learner, NT[cfg], it, groups, nobj, fam); vs_end(); vx_transition(2);
     char key[96]; snprintf(key, sizeof key, "threadcount|BootstrapRandomGroupsCV|%s", LNAME[learner]);
     vx_check(reldiff(r, seq) <= 1e-12, key, "nthreads=%d differs from nthreads=1 by %g (relative), 24 iterations", NT[cfg], reldiff(r, seq));
+    snprintf(key, sizeof key, "caller-stream|BootstrapRandomGroupsCV|%s", LNAME[learner]);
+    vx_check(r->post == caller_next_draw() && again.post == caller_next_draw(), key, "the caller seeded its stream, ran the validation with nthreads=%d and drew %d / %d; without the validation the same seed gives %d: the validation perturbed the caller's stream", NT[cfg], r->post, again.post, caller_next_draw());
     snprintf(key, sizeof key, "repeat|BootstrapRandomGroupsCV|%s", LNAME[learner]);
     vx_check(same_bits(&again, r), key, "two runs with nthreads=%d are not bit-identical", NT[cfg]);
     vx_outcome(r->h ^ (uint64_t)cfg); free(again.v);
@@ -251,7 +268,7 @@ int main(int argc, char **argv) {
   vx_describe("pass", "free-running real threads under ThreadSanitizer over the driver bodies (bootstrap CV with 2/4 workers, concurrent seeded callers, leave-one-out pools); a reported race terminates the worker and is attributed to the path");
   vx_set_shard_depth(2);
 #else
-  vx_describe("drivers", "A: BootstrapRandomGroupsCV 2 workers x {PLS,MLR,LDA} x 2 data sets; B: 3 workers (decision horizon 150); C: two user threads, each one of {random_kfold_group_generator, train_test_split, KMeansppCenters} after seeding; E: nthreads in {1,2,3,4,6,8} with 24 iterations under the default schedule; G: LeaveOneOut and KFoldCV x {PLS,MLR,LDA} x nthreads {1,2,3,4,5,7} bit-identical to nthreads=1; F: seeded KMeans (random / k-means++ initialiser) x objects {11,15,19,23} x k 2..4 x nthreads {1,2,3,4,5,6,8} equal to nthreads=1; D: YScrambling (PLS, MLR) x (LOO, bootstrap validation with its hard-coded 4 workers x 100 iterations), 1 scrambling iteration, decision horizon 12 (20 thorough; quick: MLR on one data set only), preemption bound 1");
+  vx_describe("drivers", "A: BootstrapRandomGroupsCV 2 workers x {PLS,MLR,LDA} x 2 data sets; B: 3 workers (decision horizon 150); C: two user threads, each one of {random_kfold_group_generator, train_test_split, KMeansppCenters} after seeding; E: nthreads in {1,2,3,4,6,8} with 24 iterations under the default schedule; G: LeaveOneOut and KFoldCV x {PLS,MLR,LDA} x nthreads {1,2,3,4,5,7} bit-identical to nthreads=1; F: seeded KMeans (random / k-means++ initialiser) x objects {11,15,19,23} x k 2..4 x nthreads {1,2,3,4,5,6,8} equal to nthreads=1; E also: the caller's seeded stream gives the same next draw after the validation as without it; H: YScrambling (PLS, MLR) x (LOO, bootstrap) x nthreads {1,3,4,5} bit-identical to nthreads=2; D: YScrambling (PLS, MLR) x (LOO, bootstrap validation with its hard-coded 4 workers x 100 iterations), 1 scrambling iteration, decision horizon 12 (20 thorough; quick: MLR on one data set only), preemption bound 1");
   vx_describe("scheduling points", "pthread_create, thread exit, blocking pthread_join, entry of srand_/rand_/randInt/randDouble; exactly one thread runs at a time; enabled set ordered running-first then ascending id");
   vx_describe("bounds", "mode 0: all schedules with at most B preemptions (A, C: 2 quick / 3 thorough; B: 1 / 2), no state merging; mode 1: unbounded preemptions with merging on the canonical state (per-thread run state, draws, hash of received values; last srand_ argument in global order and draws since), state cap 200000 (A, B, C in both tiers)");
   vx_describe("oracle", "every complete schedule: result bit-identical to the default schedule and within 1e-12 of the single-thread run; concurrent seeded callers each equal their stand-alone outcome");
